@@ -1004,6 +1004,160 @@ def frames_fails_fresh(case, clause):
 # --------------------------------------------------------------------------- concurrent cases
 
 
+
+# --------------------------------------------------------------------------- mode "mutate": use -> mutate the receiver -> use again
+
+MUTATIONS = ("append_label", "replace_label", "drop_label", "append_row", "none")
+MUT_SCHEMAS = (["a", "b"], ["c"], [1, 2], ["x", "y", "z"])
+
+
+def run_mutate_impl(case):
+    """Frames built on schema LISTS the caller keeps (so the caller can edit them: `DataFrame.append` documents that a
+    schema object is shared with its other users and may be edited).  ops: ["new", i, schema_index, shared_with or None] /
+    ["read", i, site] / ["mut", i, kind] / ["drop", i].  Every read is reported with what the undecorated function
+    (`__wrapped__`) gives for the same receiver right after it."""
+    import gc
+
+    from orso import DataFrame
+
+    with Patched() as T:
+        sites = {d: (owner, attr, kind, w) for d, owner, attr, kind, w in cached_use_sites(T) if owner is DataFrame and kind == "property"}
+    frames, schemas, outs = {}, {}, []
+    for op in case["ops"]:
+        if op[0] == "new":
+            _, i, si, shared = op
+            sch = schemas[shared] if shared is not None and shared in schemas else list(MUT_SCHEMAS[si % len(MUT_SCHEMAS)])
+            schemas[i] = sch
+            frames[i] = DataFrame(rows=[], schema=sch)
+            outs.append(None)
+        elif op[0] == "drop":
+            frames.pop(op[1], None)
+            schemas.pop(op[1], None)
+            gc.collect()
+            outs.append(None)
+        elif op[0] == "mut":
+            _, i, kind = op
+            sch = schemas.get(i)
+            if sch is not None:
+                if kind == "append_label":
+                    sch.append("m%d" % len(sch))
+                elif kind == "replace_label" and sch:
+                    sch[0] = "r_%s" % sch[0]
+                elif kind == "drop_label" and len(sch) > 1:
+                    sch.pop()
+                elif kind == "append_row" and i in frames:
+                    try:
+                        frames[i]._rows = list(frames[i]._rows) + [tuple(range(len(sch)))]
+                    except Exception:
+                        pass
+            outs.append(None)
+        else:
+            _, i, site = op
+            df = frames.get(i)
+            if df is None or site not in sites:
+                outs.append(None)
+                continue
+            w = sites[site][3]
+            try:
+                got = w(df)
+                now = w.__wrapped__(df)
+                # re-derivation from the schema list the harness holds (the undecorated function may itself memoise)
+                sch = schemas.get(i)
+                attr = sites[site][1]
+                if attr == "column_names" and sch is not None:
+                    now = tuple(str(c) for c in sch)
+                elif attr == "columncount" and sch is not None:
+                    now = len(sch)
+                outs.append([_strict(got), _strict(now)])
+            except Exception as e:
+                outs.append(["err", type(e).__name__])
+    return outs
+
+
+def oracle_mutate(case, outs):
+    """The property speaks of ARGUMENTS: a read of receiver r must return what the wrapped function produced for r - now
+    (recomputed) or at an earlier read of this same r (served from the cache; stale after a mutation of r is the same
+    argument object, hence not a violation of C19: counted, never an alarm).  Anything else was computed for another receiver."""
+    seen = {}  # (receiver, site) -> values the wrapped function has produced for it so far
+    stale = 0
+    for op, o in zip(case["ops"], outs):
+        if op[0] == "drop":
+            for k in [k for k in seen if k[0] == op[1]]:
+                del seen[k]
+        if op[0] == "new":
+            for k in [k for k in seen if k[0] == op[1]]:
+                del seen[k]
+        if op[0] != "read" or o is None:
+            continue
+        if o[0] == "err":
+            return "use site raised %s" % o[1], stale
+        got, now = o
+        k = (op[1], op[2])
+        if got != now:
+            if got in seen.get(k, []):
+                stale += 1
+            else:
+                return "use site served a value computed for a different receiver", stale
+        seen.setdefault(k, []).append(now)
+        if got not in seen[k]:
+            seen[k].append(got)
+    return None, stale
+
+
+def valid_mutate(c):
+    try:
+        return c.get("mode") == "mutate" and all(op[0] in ("new", "read", "mut", "drop") for op in c["ops"]) and any(op[0] == "read" for op in c["ops"])
+    except Exception:
+        return False
+
+
+def evaluate_mutate(ctx, cases):
+    for case in cases:
+        outs = run_mutate_impl(case)
+        clause, stale = oracle_mutate(case, outs)
+        ctx.case(case, sum(1 for op in case["ops"] if op[0] == "read") >= 2)
+        ctx.hit("mutate:reads:%d" % min(4, sum(1 for op in case["ops"] if op[0] == "read")))
+        for op in case["ops"]:
+            if op[0] == "mut":
+                ctx.hit("mutate:kind:" + op[2])
+        if stale:
+            ctx.hit("mutate:stale-after-mutation-of-the-same-receiver")
+            for op in case["ops"]:
+                if op[0] == "read":
+                    _STALE_SITES.add(op[2])
+        if clause is not None:
+            def still(c2):
+                if not valid_mutate(c2):
+                    return False
+                return oracle_mutate(c2, run_mutate_impl(c2))[0] == clause
+
+            small = core.shrink(case, still) if hasattr(core, "shrink") else case
+            ctx.fail(small, clause, impl={"outs": run_mutate_impl(small)})
+
+
+_STALE_SITES = set()
+
+
+def exhaustive_mutate(T):
+    with Patched() as T_:
+        names = sorted(d for d, owner, attr, kind, w in cached_use_sites(T_) if kind == "property" and owner.__name__ == "DataFrame")
+    for site in names:
+        for kind in MUTATIONS:
+            # one receiver: read, mutate, read
+            yield {"mode": "mutate", "ops": [["new", 0, 0, None], ["read", 0, site], ["mut", 0, kind], ["read", 0, site]]}
+            # two receivers sharing ONE schema object: read A, mutate, read B, read A
+            yield {"mode": "mutate", "ops": [["new", 0, 0, None], ["new", 1, 0, 0], ["read", 0, site], ["mut", 0, kind], ["read", 1, site], ["read", 0, site]]}
+            # two receivers with equal but distinct schema objects
+            yield {"mode": "mutate", "ops": [["new", 0, 0, None], ["new", 1, 0, None], ["read", 0, site], ["mut", 0, kind], ["read", 1, site], ["read", 0, site]]}
+            # a receiver dropped and another one created (ids may be reused)
+            yield {"mode": "mutate", "ops": [["new", 0, 0, None], ["read", 0, site], ["mut", 0, kind], ["drop", 0], ["new", 1, 0, None], ["read", 1, site]]}
+            for other in names:
+                if other != site:
+                    yield {"mode": "mutate", "ops": [["new", 0, 2, None], ["read", 0, site], ["mut", 0, kind], ["read", 0, other], ["read", 0, site]]}
+
+
+
+
 def gen_info():
     p = os.path.join(core.LEAN, "OrsoVerif", "Generated", "generated.json")
     return json.load(open(p))
@@ -1029,6 +1183,9 @@ def run_conc_impl(case, schedule=None, policy=None):
             else:
                 pre.append(w.call(op))
         thunks = [(lambda op=op: w.call(op)) for op in case["threads"]]
+        # a lock in the wrapper's closure (the LRU wrapper's RLock) is replaced by one that co-operates
+        # with the scheduler: a thread that finds it taken is "blocked", not stuck
+        sched.coop_locks(w.w)
         res = sched.run(thunks, schedule or [], [code], timeout=5.0, policy=policy)
         outs = []
         for o in res["outcomes"]:
@@ -1500,7 +1657,10 @@ def conc_scenarios(thorough):
         out.append(({"mode": "conc", "cache": "lru", "valid": VALID, "max_size": 2, "pre": pre, "threads": thr, "post": [thr[0], thr[1]]}, False))
     out.append(({"mode": "conc", "cache": "lru", "valid": VALID, "max_size": 2, "pre": [x, ["adv", 6], y, ["adv", 5]], "threads": [x, z],
                  "post": [y, x], "costs": [[op_key(z), 6]]}, False))
-    return out
+    # the first two LRU scenarios (the lock: a hit that loses its entry to a concurrent insert + evict; two misses) come FIRST:
+    # under load the quick tier's budget used to run out before any LRU scenario was reached
+    first = [sc for sc in out if sc[0]["cache"] == "lru"][:2]
+    return first + [sc for sc in out if not any(sc is f for f in first)]
 
 
 def conc3_scenarios():
@@ -1596,6 +1756,21 @@ def run(ctx):
     use_site_notes(ctx, info)
     evaluate_frames(ctx, list(exhaustive_frames()))
     phase["frames_exhaustive_s"] = round(_time.time() - t_, 1)
+    # 2e. every cached use site on DataFrame: use -> mutate the receiver's observable state -> use again, compared with the
+    # undecorated function; also receivers that share one schema object / equal schemas / a re-created receiver
+    t_ = _time.time()
+    mcases = list(exhaustive_mutate(None))
+    evaluate_mutate(ctx, mcases)
+    ctx.note("mutate_scope", "%d sequences (read, mutate the schema list the caller holds / the rows, read again; one receiver, two receivers "
+             "sharing a schema object, equal schemas, re-created receiver, two use sites) over every cached property of DataFrame" % len(mcases))
+    ctx.note("use_sites_stale_after_mutation_of_the_same_receiver (same argument object: not a violation of C19, recorded only)", sorted(_STALE_SITES))
+    phase["mutate_s"] = round(_time.time() - t_, 1)
+    facts = info.get("c19.site_facts") or []
+    ctx.note("use_sites_covered_by_the_per_site_theorem", sorted(f["name"] for f in facts if f["decorator"] == "single_item_cache"
+                                                                and f["arity"] == 1 and not f["receiver_defines_eq"]))
+    ctx.note("use_sites_left_to_the_general_theorems_and_correspondence", sorted(f["name"] for f in facts if not (
+        f["decorator"] == "single_item_cache" and f["arity"] == 1 and not f["receiver_defines_eq"])))
+    ctx.note("use_sites_whose_result_reads_state_of_the_receiver", sorted("%s: %s" % (f["name"], ",".join(f["reads_self_state"])) for f in facts if f["reads_self_state"]))
     t_ = _time.time()
     # 3. concurrent: all schedules of two callers (a slice of the budget stays reserved for the random phase)
     reserve = ctx.scale(5, 75)
@@ -1672,15 +1847,14 @@ def replay(ctx, case):
         evaluate_frames(ctx, [case])
     elif mode == "apply":
         evaluate_apply(ctx, [case])
+    elif mode == "mutate":
+        evaluate_mutate(ctx, [case])
     elif mode == "conc":
         evaluate_conc(ctx, [case], deg[case["cache"]], info)
     else:
         raise InfraError("unknown case mode %r" % (mode,))
 
 
-def _k01(case, failure):
-    return (case.get("mode") == "conc" and case.get("cache") == "lru" and len(case.get("threads", [])) >= 2
-            and failure.get("clause") in ("call raised KeyError", "call raised RuntimeError"))
-
-
-KNOWN_PREDICATES = {"lru_concurrent_bookkeeping_exception": _k01}
+# C19-K01 (the LRU wrapper's bookkeeping exceptions under concurrency) is repaired (C19-F02): no known finding is left,
+# a call that raises KeyError / RuntimeError is a VIOLATION again.
+KNOWN_PREDICATES = {}
